@@ -311,6 +311,64 @@ def opRate (j : Json) : R Json := do
     | _ => throw "bad charge query"
   return Json.mkObj [("slow", Json.arr sl.toArray), ("charge", Json.arr ch.toArray)]
 
+open Interleave in
+/-- like "download" plus "sched":[task index...]; tasks = queue entries (in pop order) that are not short-cut by check_size -/
+def opInterleave (j : Json) : R Json := do
+  let root ← decPath (← field j "root")
+  let fsl ← fArr j "fs"
+  let queue ← (← fArr j "queue").mapM decDFile
+  let orc ← decOracle (← fArr j "oracle")
+  let sched ← (← fArr j "sched").mapM (·.getNat?)
+  -- initial slots
+  let mut slots : List (Path × Slot) := []
+  for e in fsl do
+    let a ← e.getArr?
+    match a.toList with
+    | [p, size, mtime, tag, grp] =>
+      let p ← decPath p
+      slots := (p, ({ gen := 0, cur := some { size := ← size.getNat?, mtime := ← optInt mtime, tag := ← tag.getNat?,
+                                                grp := (["#group"], ← grp.getNat?) } } : Slot)) :: slots
+    | _ => throw "bad fs entry"
+  let fs0 ← decFS fsl
+  let popOrder := queue.reverse
+  let (short, rest) := popOrder.partition fun f =>
+    f.checkSize && (sizeShortcut root f fs0 f.iterVariants).isSome
+  let tasksL := rest
+  let s0 : KState := {
+    files := fun p => (slots.lookup p).getD { gen := 0, cur := none }
+    scripts := orc
+    reqs := fun _ => 0
+    tasks := fun i => match tasksL[i]? with
+      | some f => newTask f
+      | none => { newTask { path := [], variants := [], checkSize := false, ignoreErrors := false, ignoreMissing := false } with finished := true } }
+  let s1 := exec root sched s0
+  -- run everything to completion, round robin
+  let n := tasksL.length
+  let rec finish (fuel : Nat) (s : KState) : KState :=
+    match fuel with
+    | 0 => s
+    | fuel + 1 =>
+      if (List.range n).all (fun i => (s.tasks i).finished) then s
+      else finish fuel (exec root (List.range n) s)
+  let s2 := finish 2000 s1
+  let allPaths := (slots.map (·.1) ++ tasksL.flatMap (fun f => fpFiles root f)).eraseDups
+  let names := allPaths.filter fun p => (s2.files p).cur.isSome
+  let sorted := names.toArray.qsort (fun a b => a < b) |>.toList
+  let urls := (tasksL.flatMap fun f => fpUrls f).eraseDups
+  return Json.mkObj [
+    ("tasks", Json.arr ((List.range n).map fun i =>
+      let t := s2.tasks i
+      Json.mkObj [("path", encPath t.file.path), ("outcome", Json.num t.outcome), ("bytes", Json.num t.bytes),
+        ("unmodified", Json.bool t.unmodified), ("finished", Json.bool t.finished),
+        ("reported", match t.reported with | some v => encVariant v | none => Json.null)]).toArray),
+    ("shortcut", Json.arr (short.map fun f => encPath f.path).toArray),
+    ("fs", Json.arr (sorted.map fun p =>
+      match (s2.files p).cur with
+      | some d => Json.arr #[encPath p, Json.num d.size, (match d.mtime with | some t => Json.num t | none => Json.null),
+                             Json.num d.tag, Json.str (toString d.grp)]
+      | none => Json.null).toArray),
+    ("reqs", Json.arr (urls.map fun u => Json.arr #[encPath u, Json.num (s2.reqs u)]).toArray)]
+
 def dispatch (j : Json) : R Json := do
   let op ← fStr j "op"
   match op with
@@ -326,6 +384,7 @@ def dispatch (j : Json) : R Json := do
   | "lock" => opLock j
   | "sched" => opSched j
   | "rate" => opRate j
+  | "interleave" => opInterleave j
   | "quote" => opQuote j
   | "validate" => opValidate j
   | "metadata_files" => opMetadataFiles j
